@@ -299,6 +299,7 @@ func c19ServerLookup(c *Ctx) {
 		fns = append(fns, fn)
 		fns = append(fns, fn.AnonFuncs...)
 	}
+	fns = uniqFns(fns)
 	// both address parts of the datagram reach the key: the function that builds the key (a method
 	// filling a local, or a constructor) is given X.IP and X.Port of one address and uses both
 	usesParams := func(h *ssa.Function, idx ...int) bool {
